@@ -117,6 +117,8 @@ fn declaration_faults() -> Vec<Item> {
         push(with_extra_decl(RDecl::Type { name: "T".into(), ty: tname("printi") }, at), at);
         push(with_extra_decl(empty_proc("p", vec![pi("x", false, tname("A"))], vec![]), at), at);
         push(with_extra_decl(empty_proc("p", vec![pi("y", true, tname("int")), pi("x", false, arr(2, tname("int")))], vec![]), at), at);
+        // a variable named int hides the predefined type in the declarations behind it
+        push(with_extra_decl(empty_proc("p", vec![], vec![vi("int", tname("A")), vi("k", tname("int"))]), at), at);
         // a type used before its declaration
         push(with_extra_decl(empty_proc("p", vec![], vec![vi("v", tname("M"))]), 1), 1);
     }
@@ -153,6 +155,8 @@ fn type_equivalence_faults() -> Vec<Item> {
         RStmt::Call("s".into(), vec![evar("d")]),
         RStmt::Call("s".into(), vec![evar("x")]),
         RStmt::Call("s".into(), vec![evar("a")]),
+        // a named type that is spelled like "procedure_parameter"
+        RStmt::Call("s".into(), vec![evar("g")]),
         RStmt::Call("t".into(), vec![evar("c")]),
         RStmt::Call("t".into(), vec![evar("a")]),
         RStmt::Call("r".into(), vec![RExpr::Var(idx(vname("m"), eint(0)))]),
@@ -171,19 +175,20 @@ fn type_equivalence_faults() -> Vec<Item> {
         let mut decls = prelude_types();
         decls.push(RDecl::Type { name: "C".into(), ty: anon() });
         decls.push(RDecl::Type { name: "B".into(), ty: tname("A") });
+        decls.push(RDecl::Type { name: "s_x".into(), ty: anon() });
         decls.push(proc_q());
         decls.push(proc_r());
         decls.push(RDecl::Proc { name: "s".into(), params: vec![RParam { is_ref: true, name: "x".into(), ty: anon() }], vars: vec![], body: vec![] });
         decls.push(RDecl::Proc { name: "t".into(), params: vec![RParam { is_ref: true, name: "x".into(), ty: tname("C") }], vars: vec![], body: vec![] });
         let mut vars = main_locals();
-        for (n, t) in [("b", tname("B")), ("c", tname("C")), ("d", anon()), ("e", anon()), ("x", anon())] {
+        for (n, t) in [("b", tname("B")), ("c", tname("C")), ("d", anon()), ("e", anon()), ("x", anon()), ("g", tname("s_x"))] {
             vars.push(RVarDecl { name: n.into(), ty: t });
         }
         let main = RDecl::Proc { name: "main".into(), params: vec![], vars, body: vec![st] };
         if k % 2 == 0 {
             decls.push(main);
         } else {
-            decls.insert(4, main);
+            decls.insert(5, main);
         }
         let f = decls.iter().position(|d| matches!(d, RDecl::Proc { name, .. } if name == "main")).unwrap_or(0);
         out.push(Item { family: "type-equivalence", program: RProgram { decls }, focus_decl: f });
